@@ -106,7 +106,16 @@ class DagWalker(Walker):
         if formula in self.memoization:
             return self.memoization[formula]
 
-        res = self.iter_walk(formula, **kwargs)
+        try:
+            res = self.iter_walk(formula, **kwargs)
+        except BaseException:
+            # Do not leave a partial computation behind: the stack
+            # would be processed by the next walk, and a one-shot
+            # memoization would be reused with different arguments
+            self.stack = []
+            if self.invalidate_memoization:
+                self.memoization.clear()
+            raise
 
         if self.invalidate_memoization:
             self.memoization.clear()
